@@ -1,8 +1,216 @@
 import TRV.Oracle.Util
-/-! Oracle operations: Enrich (stub, filled in by the module that owns it). -/
-namespace TRV.Oracle.Enrich
-open TRV.Oracle
+import TRV.Spec.Enrich
+/-! Oracle operations: Enrich (C18; public-IP timing for C08).
 
-def handlers : List (String × Handler) := []
+* `enr.run  <runs> R <key=val>… O <ip>…`      model: `enrichOrder norm16 resolver order doc`
+* `enr.with <runs> C <ip=val|ip=!>…`          model: `enrichWith completions doc` (per-call answers)
+* `enr.spec <runs with ip:names> R <key=val>…` spec: `namesExactB` on an observed document
+* `enr.same <runs with ip:names> C <ip=val|ip=!>…` spec: `FromSameAddress` on an observed document
+* `cache.seq <t0> <op>…`                       model: sequential `GetWithExpiration` / sleep / flush
+* `cache.spec <obs>…`                          spec: `traceOK` on an observed trace
+* `pubip.get D=<deadline|-> <provider> | …`    model: `get (withBudgets …)`
+* `pubip.spec <provider incl. B:budget> | …`    spec: `firstValid` (budgets as observed)
+* `pubip.parse <bodyhex>`                      `parseBody`
+
+`<runs>`: runs separated by `|`, each `destip hopip…` (hex, `-` = empty address).  Names values are
+opaque tokens; `_` = nil. -/
+namespace TRV.Oracle.Enrich
+open TRV TRV.Oracle TRV.Enrich TRV.Spec.Enr
+
+abbrev ODoc := Doc String Unit Unit Unit
+
+def splitBar (toks : List String) : List (List String) :=
+  let rec go (cur : List String) (acc : List (List String)) : List String → List (List String)
+    | [] => (cur.reverse :: acc).reverse
+    | t :: ts => if t = "|" then go [] (cur.reverse :: acc) ts else go (t :: cur) acc ts
+  match toks with
+  | [] => []
+  | _ => go [] [] toks
+
+def parseNames (s : String) : Names String := if s = "_" then none else some s
+def showNames : Names String → String
+  | none => "_"
+  | some v => v
+
+/-- `ip` or `ip:names` -/
+def parseHopTok (s : String) : Option (Bytes × Names String) :=
+  match splitOn s ':' with
+  | [ip] => (parseHex ip).map fun b => (b, none)
+  | [ip, n] => (parseHex ip).map fun b => (b, parseNames n)
+  | _ => none
+
+def parseRun (toks : List String) : Option (Run String Unit Unit) :=
+  match toks with
+  | [] => none
+  | d :: hs => do
+    let (dip, dn) ← parseHopTok d
+    let hops ← hs.mapM parseHopTok
+    pure { destIp := dip, destNames := dn, hops := hops.map fun (ip, n) => ⟨ip, n, ()⟩, other := () }
+
+def parseDoc (toks : List String) : Option ODoc := do
+  let runs ← (splitBar toks).mapM parseRun
+  pure { runs := runs, other := () }
+
+def showDoc (d : ODoc) : String :=
+  " | ".intercalate (d.runs.map fun r => " ".intercalate (r.namesList.map showNames))
+
+/-- `key=val` -/
+def parseKV (s : String) : Option (Bytes × String) :=
+  match splitOn s '=' with
+  | [k, v] => (parseHex k).map fun b => (b, v)
+  | _ => none
+
+def tableResolver (tab : List (Bytes × String)) (k : Bytes) : Option String := tab.lookup k
+
+/-- `ip=val` (success) or `ip=!` (failure) -/
+def parseCompletion (s : String) : Option (Completion String) :=
+  (parseKV s).map fun (ip, v) => (ip, if v = "!" then none else some v)
+
+def enrRun : Handler := fun toks => orBad do
+  let (docT, rest) := toks.span (· != "R")
+  let (tabT, ordT) := (rest.drop 1).span (· != "O")
+  let d ← parseDoc docT
+  let tab ← tabT.mapM parseKV
+  let order ← (ordT.drop 1).mapM parseHex
+  pure (showDoc (enrichOrder norm16 (tableResolver tab) order d))
+
+def enrWith : Handler := fun toks => orBad do
+  let (docT, rest) := toks.span (· != "C")
+  let d ← parseDoc docT
+  let cs ← (rest.drop 1).mapM parseCompletion
+  pure (showDoc (enrichWith cs d))
+
+def enrSpec : Handler := fun toks => orBad do
+  let (docT, rest) := toks.span (· != "R")
+  let d ← parseDoc docT
+  let tab ← (rest.drop 1).mapM parseKV
+  pure (showBool (namesExactB (want norm16 (tableResolver tab)) d))
+
+def enrSame : Handler := fun toks => orBad do
+  let (docT, rest) := toks.span (· != "C")
+  let d ← parseDoc docT
+  let cs ← (rest.drop 1).mapM parseCompletion
+  pure (showBool (d.runs.all fun r => fromSameB cs r.destIp r.destNames && r.hops.all fun h => fromSameB cs h.ip h.names))
+
+/-! ### cache -/
+
+abbrev COp := SeqOp String String
+
+def parseCOp (s : String) : Option COp :=
+  match splitOn s ':' with
+  | ["g", k, cb, dur, ttl] => do
+    let dur ← dur.toNat?
+    let ttl ← parseInt ttl
+    pure (.get k (if cb = "!" then none else some cb) dur ttl)
+  | ["s", d] => d.toNat?.map .sleep
+  | ["f"] => some .flush
+  | _ => none
+
+def showOpt : Option String → String
+  | none => "!"
+  | some v => v
+
+def showObs : Obs String String → Option String
+  | .flush => none
+  | .call _ _ _ ran _ _ result => some (if ran then s!"m:{showOpt result}:1" else s!"h:{showOpt result}")
+
+def cacheSeq : Handler
+  | t0 :: ops => orBad do
+    let t0 ← t0.toNat?
+    let ops ← ops.mapM parseCOp
+    pure (" ".intercalate ((observe ops Store.flush t0).filterMap showObs))
+  | _ => badOp
+
+def parseObs (s : String) : Option (Obs String String) :=
+  match splitOn s ':' with
+  | ["c", at_, k, ttl, ran, cbOut, doneAt, result] => do
+    let at_ ← at_.toNat?
+    let ttl ← parseInt ttl
+    let ran ← parseBool ran
+    let doneAt ← doneAt.toNat?
+    pure (.call at_ k ttl ran (if cbOut = "!" then none else some cbOut) doneAt
+      (if result = "!" then none else some result))
+  | ["f"] => some .flush
+  | _ => none
+
+def cacheSpec : Handler := fun toks => orBad do
+  let obs ← toks.mapM parseObs
+  pure (showBool (traceOK obs))
+
+/-! ### public IP -/
+
+def parseAttemptOrIval (s : String) : Option (Sum Attempt Nat) :=
+  match splitOn s ':' with
+  | ["t", d] => d.toNat?.map fun d => .inl (.transport d)
+  | ["b", st, d] => do
+    let st ← st.toNat?; let d ← d.toNat?
+    pure (.inl (.bodyErr st d))
+  | ["r", st, body, d] => do
+    let st ← st.toNat?; let body ← parseHex body; let d ← d.toNat?
+    pure (.inl (.resp st body d))
+  | ["i", n] => n.toNat?.map .inr
+  | _ => none
+
+def parseProviderToks (toks : List String) : Option (List Attempt × List Nat) := do
+  let xs ← toks.mapM parseAttemptOrIval
+  pure (xs.filterMap (fun x => match x with | .inl a => some a | .inr _ => none),
+        xs.filterMap (fun x => match x with | .inr n => some n | .inl _ => none))
+
+def parseParent (s : String) : Option (Option Nat) :=
+  if s = "D=-" then some none
+  else if s.startsWith "D=" then ((s.drop 2).toString.toNat?).map some
+  else none
+
+def parseProviders : List String → Option (List Provider)
+  | d :: rest => do
+    let parent ← parseParent d
+    let ps ← (splitBar rest).mapM parseProviderToks
+    pure (withBudgets parent 0 ps)
+  | [] => none
+
+def showPOut : POut → String
+  | .ok ip => s!"ok={toHex ip}"
+  | .permanent => "permanent"
+  | .ctxDone => "ctx"
+  | .maxElapsed => "maxelapsed"
+  | .scriptEnd => "script-end"
+
+def showResult : Option (Nat × Bytes) → String
+  | none => "none"
+  | some (i, ip) => s!"{i}:{toHex ip}"
+
+def pubipGet : Handler := fun toks => orBad do
+  let ps ← parseProviders toks
+  let g := get ps
+  let tr := ",".intercalate (g.trace.map fun r => s!"{showPOut r.out}:{r.attempts}:{r.elapsed}")
+  pure s!"res={showResult g.result} trace={tr} elapsed={g.elapsed}"
+
+/-- provider section with an explicit observed budget token `B:<ns>` (default: 2 s) -/
+def parseSpecProvider (toks : List String) : Option Provider := do
+  let (bs, others) := toks.partition (·.startsWith "B:")
+  let (sc, iv) ← parseProviderToks others
+  let budget ← match bs with
+    | [] => some callTimeout
+    | [b] => (b.drop 2).toString.toNat?
+    | _ => none
+  pure ⟨sc, iv, budget⟩
+
+/-- `pubip.spec <provider with B:budget> | …` : budgets are observations, not model output -/
+def pubipSpec : Handler := fun toks => orBad do
+  let ps ← (splitBar toks).mapM parseSpecProvider
+  pure (showResult (firstValid ps))
+
+def pubipParse : Handler
+  | [body] => orBad do
+    let b ← parseHex body
+    pure (match parseBody b with
+      | none => "!"
+      | some ip => toHex ip)
+  | _ => badOp
+
+def handlers : List (String × Handler) :=
+  [("enr.run", enrRun), ("enr.with", enrWith), ("enr.spec", enrSpec), ("enr.same", enrSame),
+   ("cache.seq", cacheSeq), ("cache.spec", cacheSpec),
+   ("pubip.get", pubipGet), ("pubip.spec", pubipSpec), ("pubip.parse", pubipParse)]
 
 end TRV.Oracle.Enrich
